@@ -60,6 +60,18 @@ Section Ok.
   Definition is_body_comp (i : instr) : bool := match i with RenderBodyComponent _ => true | _ => false end.
   Definition has_body_comp (ch : list instr) : bool := existsb is_body_comp ch.
 
+  (* a finalized template whose every chunk is chunk_ok and that is autoescaped by its own flag *)
+  Definition tpl_ok (t : template) : bool :=
+    t_autoescape t && chunk_ok (t_chunk t) && chunk_ok (t_root_chunk t)
+    && forallb (fun bl => forallb chunk_ok (snd bl)) (t_lineage t).
+  (* the same without looking at the flag (renders with an autoescape override) *)
+  Definition tpl_chunks_ok (t : template) : bool :=
+    chunk_ok (t_chunk t) && chunk_ok (t_root_chunk t)
+    && forallb (fun bl => forallb chunk_ok (snd bl)) (t_lineage t).
+  Definition tpl_has_body_comp (t : template) : bool :=
+    has_body_comp (t_chunk t) || has_body_comp (t_root_chunk t)
+    || existsb (fun bl => existsb has_body_comp (snd bl)) (t_lineage t).
+
   Definition obody_ok (b : option value) : bool := match b with Some v => vok v | None => true end.
 
   (* The body operand of RenderBodyComponent is marked safe by the VM whatever it is
